@@ -256,29 +256,32 @@ int main(int argc, char** argv) {
     verif::Run run("C14", argc, argv);
     run.setDeadline(400, 2400);   // safety net only
     const bool th = run.thorough();
-    run.rule = "E3: models = level A (every KINDxDIRxFRAMES variant, incl. Weld, as base/middle/tip/fork-branch of a 3-body tree with companions {Pin,Ball,Free}^2) plus the massless-middle-body variant of every role-1 model (kept when the mass matrix stays SPD with cond<1e7, else counted as not legal); x COORD{quaternion,Euler} x STATE(quick: generic, zero-velocity; thorough: 4 kinds x 3 value sets) x MASS(variant's mass kind = seed%3; thorough: rotated with the value set so that all 3 occur; companions always carry kinds 0,1,2) x FORCE{gravity; gravity+point force+torque on every body+mobility force on every u; mobility forces only} x CONS{none, Rod(Ground-tip), Ball constraint(base-tip / siblings), ConstantSpeed on the variant, Motion::Steady, acceleration-level Custom Motion, lock}; distinct = distinct tuple; non-trivial = legal and not skipped for nu=0";
+    run.rule = "E3: models = level A (every KINDxDIRxFRAMES variant, incl. Weld, as base/middle/tip/fork-branch of a 3-body tree with companions {Pin,Ball,Free}^2) plus the massless-middle-body variant of every role-1 model (kept when the mass matrix stays SPD with cond<1e7, else counted as not legal); x COORD{quaternion,Euler} x STATE (quick: generic and zero-velocity state of value set seed%3; thorough: all 4 state kinds of that value set + the generic state of the other two value sets) x MASS(variant's mass kind = value set, so thorough uses all 3; companions always carry kinds 0,1,2) x FORCE{gravity; gravity+point force+torque on every body+mobility force on every u; mobility forces only} x CONS{none, Rod(Ground-tip), Ball constraint(base-tip / siblings), ConstantSpeed on the variant, Motion::Steady, acceleration-level Custom Motion, lock}; distinct = distinct tuple; non-trivial = legal and not skipped for nu=0";
     run.assumptions = {"continuous values only from the fixed tables in engine/models.h and the constants in this harness",
                        "trees of 3 mobilized bodies", "reported poses/velocities/accelerations are inputs (their correctness is C02/C03/C05's business)",
                        "constraint body forces are taken from calcConstraintForcesFromMultipliers with the documented sign; constraint and prescribed-motion mobility forces are part of the reaction (documented convention)",
-                       "relative tolerance 1e-10 against the largest term of each balance"};
-    std::vector<int> valueSets = th ? std::vector<int>{0, 1, 2} : std::vector<int>{(int)(((run.seed % 3) + 3) % 3)};
-    std::vector<int> states = th ? std::vector<int>{0, 1, 2, 3} : std::vector<int>{1, 3};
-    const int nMass = 1;   // the variant's mass kind: quick = seed%3; thorough = (value set + seed)%3, so all three kinds occur
+                       "relative tolerance 1e-11 x cond(M) against the largest term of any body's balance in the system"};
+    // (state kind, value set) combinations.  quick: generic and zero-velocity state of value set seed%3;
+    // thorough: all four state kinds of that value set plus the generic state of the other two value sets.
+    const int vs0 = (int)(((run.seed % 3) + 3) % 3);
+    std::vector<std::pair<int, int> > stateVs = th ? std::vector<std::pair<int, int> >{{0, vs0}, {1, vs0}, {2, vs0}, {3, vs0}, {1, (vs0 + 1) % 3}, {1, (vs0 + 2) % 3}}
+                                                  : std::vector<std::pair<int, int> >{{1, vs0}, {3, vs0}};
+    const int nMass = 1;   // the variant's mass kind = the value set (quick: seed%3; thorough: all three occur)
     mb::LevelA A;
     auto section = [&](const std::string& name, bool massless) {
         std::vector<int64_t> models;                    // massless: only the middle body of a chain (role 1)
         for (int64_t i = 0; i < A.size(); ++i) if (!massless || (i / 9) % 4 == 1) models.push_back(i);
         verif::Odometer od;
-        od.dim("cons", NCONS); od.dim("force", 3); od.dim("state", (int64_t)states.size()); od.dim("coord", 2);
+        od.dim("cons", NCONS); od.dim("force", 3); od.dim("statevs", (int64_t)stateVs.size()); od.dim("coord", 2);
         od.dim("mass", massless ? 1 : nMass);           // the variant's own mass kind is irrelevant when it is massless
-        od.dim("valueset", (int64_t)valueSets.size()); od.dim("model", (int64_t)models.size());
+        od.dim("unused", 1); od.dim("model", (int64_t)models.size());
         run.parallel(name, od.size(), [&](int64_t idx) {
             auto d = od.digits(idx);
             const int64_t mi = models[d[6]];
             const int role = (int)((mi / 9) % 4);
             Case cs;
-            cs.specs = A.specs(mi, massless ? 0 : (d[4] + (th ? valueSets[d[5]] : 0) + (int)(((run.seed % 3) + 3) % 3)) % 3);
-            cs.euler = d[3] == 1; cs.stateKind = states[d[2]]; cs.valueSet = valueSets[d[5]]; cs.forcePattern = d[1]; cs.cons = d[0];
+            cs.specs = A.specs(mi, massless ? 0 : (d[4] + stateVs[d[2]].second) % 3);   // mass kind of the variant = value set
+            cs.euler = d[3] == 1; cs.stateKind = stateVs[d[2]].first; cs.valueSet = stateVs[d[2]].second; cs.forcePattern = d[1]; cs.cons = d[0];
             cs.variant = role == 0 ? 0 : role == 2 ? 2 : 1; cs.massless = massless;
             cs.desc = name + " " + od.describe(idx) + " levelA=" + std::to_string(mi) + " cons=" + consName(cs.cons) + " ";
             { std::string m = cs.euler ? "euler[" : "quat["; for (auto& b : cs.specs) m += b.str() + " "; cs.desc += m + "] st=" + std::to_string(cs.stateKind) + " vs=" + std::to_string(cs.valueSet); }
